@@ -126,16 +126,16 @@ func randText(rng *rand.Rand, n int) string {
 }
 
 func typeList(rng *rand.Rand) string {
-	all := []string{"A", "NS", "SOA", "MX", "TXT", "AAAA", "RRSIG", "NSEC", "DNSKEY", "DS", "TYPE1234", "CAA", "TYPE65280"}
-	n := 1 + rng.IntN(5)
+	// in ascending type-number order, as the bitmap packer requires
+	all := []string{"A", "NS", "SOA", "MX", "TXT", "AAAA", "DS", "RRSIG", "NSEC", "DNSKEY", "CAA", "TYPE1234", "TYPE65280"}
 	var out []string
-	seen := map[string]bool{}
-	for i := 0; i < n; i++ {
-		t := all[rng.IntN(len(all))]
-		if !seen[t] {
-			seen[t] = true
+	for _, t := range all {
+		if rng.IntN(3) == 0 {
 			out = append(out, t)
 		}
+	}
+	if len(out) == 0 {
+		out = append(out, all[rng.IntN(len(all))])
 	}
 	return strings.Join(out, " ")
 }
@@ -253,17 +253,17 @@ func rdataGens() []rdataGen {
 		}},
 		{Type: "L32", Gen: func(r *rand.Rand) string { return fmt.Sprintf("%d %s", r.IntN(65536), ip4(r)) }},
 		{Type: "L64", Gen: func(r *rand.Rand) string {
-			return fmt.Sprintf("%d %x:%x:%x:%x", r.IntN(65536), r.IntN(65536), r.IntN(65536), r.IntN(65536), r.IntN(65536))
+			return fmt.Sprintf("%d %04x:%04x:%04x:%04x", r.IntN(65536), r.IntN(65536), r.IntN(65536), r.IntN(65536), r.IntN(65536))
 		}},
 		{Type: "NID", Gen: func(r *rand.Rand) string {
-			return fmt.Sprintf("%d %x:%x:%x:%x", r.IntN(65536), r.IntN(65536), r.IntN(65536), r.IntN(65536), r.IntN(65536))
+			return fmt.Sprintf("%d %04x:%04x:%04x:%04x", r.IntN(65536), r.IntN(65536), r.IntN(65536), r.IntN(65536), r.IntN(65536))
 		}},
 		{Type: "LP", Gen: func(r *rand.Rand) string { return fmt.Sprintf("%d %s", r.IntN(65536), name(r)) }},
 		{Type: "NINFO", Gen: txt},
 		{Type: "AVC", Gen: txt},
 		{Type: "TALINK", Gen: func(r *rand.Rand) string { return name(r) + " " + name(r) }},
 		{Type: "NSAP-PTR", Gen: func(r *rand.Rand) string { return name(r) }},
-		{Type: "X25", Gen: func(r *rand.Rand) string { return fmt.Sprintf(`"%d"`, r.IntN(1<<30)) }},
+		{Type: "X25", Gen: func(r *rand.Rand) string { return fmt.Sprint(r.IntN(1 << 30)) }},
 		{Type: "GPOS", Gen: func(r *rand.Rand) string {
 			return fmt.Sprintf("%d.%d %d.%d %d.%d", r.IntN(90), r.IntN(100), r.IntN(90), r.IntN(100), r.IntN(900), r.IntN(100))
 		}},
@@ -393,6 +393,17 @@ func mangleB64(rng *rand.Rand, raw []byte) (string, string) {
 			return s[:i] + "\n" + s[i:], "b64-break-inside-group-at-chunk-edge"
 		}
 		return s, "b64-plain"
+	case 14:
+		// padding that closes a group exactly at a 256-character chunk edge,
+		// with more material after it
+		if len(s) > 260 {
+			edge := 256 * (1 + rng.IntN(len(s)/256))
+			if edge > len(s) {
+				edge = 256
+			}
+			return s[:edge-4] + "AA==" + s[edge-4:], "b64-padding-at-chunk-edge"
+		}
+		return s + "====", "b64-extra-padding"
 	case 13:
 		// url-safe alphabet
 		return strings.NewReplacer("+", "-", "/", "_").Replace(s), "b64-urlsafe"
